@@ -70,7 +70,12 @@ class Check:
         source construct serves both); the instance is re-evaluated on the current tree on every run, not copied."""
         from .facts import CannotDecide
         sub = Check(src_pid, self.tier)
-        module.run(sub, prog, ctx)
+        asked = set(getattr(prog, "asked", ()))
+        try:
+            module.run(sub, prog, dict(ctx, no_deps=True))
+        finally:
+            if hasattr(prog, "asked"):
+                prog.asked = asked       # the borrowed module's anchors are not this property's (vflib/deps.py)
         n = 0
         for (rule, k, okk, detail, where) in sub.instances:
             if select(rule, k):
